@@ -303,6 +303,107 @@ harness("c03.comb", prop="C03", traced=("futures.zip", "futures.bool", "map", "c
         params=_cparams())(cbody)
 oracle("c03.comb")(ccheck)
 
+# ------------------------------------------------------------------ a consumer chains onto a future whose input is being cancelled
+def _kparams():
+    return [dict(kind=k, how=h) for k in ("f_map", "f_flat_map", "throttle", "timeout", "nocancel", "proxy")
+            for h in ("cancel", "value", "exception")]
+
+
+def kbody(mc, p):
+    base = ManualExecutor(mc, mode="hold")
+    k = p["kind"]
+    if k in ("throttle", "timeout"):
+        st = Stack(mc, (k,), base="hold", opts=dict(count=1))
+        m1 = st.top.submit(lambda: None)
+        mc.sleep(0.25)
+        src = st.base.items[0].future
+    else:
+        src = ProbeFuture(mc, "src")
+        m1 = {"f_map": lambda: F.f_map(src, lambda v: v), "f_flat_map": lambda: F.f_flat_map(src, lambda v: F.f_return(v)),
+              "nocancel": lambda: F.f_nocancel(src), "proxy": lambda: F.f_proxy(src)}[k]()
+    res = {}
+
+    def ender():
+        if p["how"] == "cancel":
+            mc.call("ext.cancel", src.cancel)
+            src.set_running_or_notify_cancel()
+        elif src.set_running_or_notify_cancel():
+            if p["how"] == "value":
+                src.set_result("v")
+            else:
+                src.set_exception(E2("x"))
+
+    def chainer():
+        res["m2"] = F.f_map(m1, lambda v: ("h", v))
+        res["m3"] = F.f_zip(res["m2"], F.f_return(1))
+    mc.spawn(ender, "ender")
+    mc.spawn(chainer, "chainer")
+    mc.sleep(5)
+    mc.observe(m1=snapshot(m1), m2=snapshot(res["m2"]) if "m2" in res else None,
+               m3=snapshot(res["m3"]) if "m3" in res else None)
+
+
+def kcheck(x):
+    if not x.require(x.end == "done" and x.obs.get("m2") is not None, "bad-ending", end=x.end):
+        return
+    for k in ("m1", "m2", "m3"):
+        x.require(x.obs[k][0] != "pending", "derived-pending-after-work-finished", layer=x.p["kind"], stage=k,
+                  cause="consumer-chained-while-input-ended:" + x.p["how"], detail=repr((x.obs["m1"], x.obs["m2"], x.obs["m3"])))
+
+
+harness("c03.chain", prop="C03", traced=("common", "map"), horizon=30, params=_kparams())(kbody)
+oracle("c03.chain")(kcheck)
+
+
+# ------------------------------------------------------------------ retry policy faults must not lose the future
+def _fparams():
+    return [dict(site=s, at=a) for s in ("should_retry", "sleep_time") for a in (1, 2)]
+
+
+def fbody(mc, p):
+    from more_executors._impl.retry import RetryPolicy, RetryExecutor
+
+    class Pol(RetryPolicy):
+        n = {"should_retry": 0, "sleep_time": 0}
+
+        def should_retry(self, attempt, future):
+            if p["site"] == "should_retry" and attempt == p["at"]:
+                raise E2("policy")
+            return future.exception() is not None and attempt < 3
+
+        def sleep_time(self, attempt, future):
+            if p["site"] == "sleep_time" and attempt == p["at"]:
+                raise E2("policy")
+            return 1.0
+    base = ManualExecutor(mc, mode="manual")
+    ex = RetryExecutor(base, retry_policy=Pol())
+    mc.spawn(base.worker_loop, "worker", client=False)
+    n = [0]
+
+    def fn():
+        n[0] += 1
+        if n[0] <= 2:
+            raise E("again")
+        return "v"
+    f = ex.submit(fn)
+    f.add_done_callback(lambda _f: mc.emit("derived.done", t=mc.clock))
+    mc.sleep(20)
+    mc.observe(f=snapshot(f))
+    ex.shutdown(False)
+    base.down = True
+
+
+def fcheck(x):
+    if not x.require(x.end == "done" and "f" in x.obs, "bad-ending", end=x.end):
+        return
+    x.require(x.obs["f"][0] != "pending", "derived-pending-after-work-finished", layer="retry", stage="-",
+              cause="policy-%s-raised" % x.p["site"], detail=repr(x.obs["f"]))
+
+
+harness("c03.policyfault", prop="C03", traced=(), horizon=40, params=_fparams())(fbody)
+oracle("c03.policyfault")(fcheck)
+
+
 # ------------------------------------------------------------------ timeouts that fire
 def _tparams():
     out = []
@@ -349,10 +450,12 @@ PLAN = {
               dict(harness="c03.lines.retry", bound=1), dict(harness="c03.lines.poll", bound=1),
               dict(harness="c03.lines.throttle", bound=1), dict(harness="c03.lines.timeout", bound=1),
               dict(harness="c03.lines.map", bound=1),
-              dict(harness="c03.comb", bound=2), dict(harness="c03.timeout_fires", bound=1)],
+              dict(harness="c03.comb", bound=2), dict(harness="c03.timeout_fires", bound=1),
+              dict(harness="c03.chain", bound=2), dict(harness="c03.policyfault", bound=1)],
     "thorough": [dict(harness="c03.layers", bound=3),
                  dict(harness="c03.lines.retry", bound=2), dict(harness="c03.lines.poll", bound=2),
                  dict(harness="c03.lines.throttle", bound=2), dict(harness="c03.lines.timeout", bound=2),
                  dict(harness="c03.lines.map", bound=2),
-                 dict(harness="c03.comb", bound=3), dict(harness="c03.timeout_fires", bound=2)],
+                 dict(harness="c03.comb", bound=3), dict(harness="c03.timeout_fires", bound=2),
+                 dict(harness="c03.chain", bound=3), dict(harness="c03.policyfault", bound=2)],
 }
